@@ -117,7 +117,7 @@ namespace {
     }
 
     std::string stmt(int d, bool top = false) {
-      const int k = int(rng.below(d <= 0 ? 3 : 14));
+      const int k = int(rng.below(d <= 0 ? 3 : 16));
       switch (k) {
       case 0:
         return expr(d) + ";";
@@ -142,15 +142,20 @@ namespace {
         return "for (var " + i + " = 0; " + i + " < 2; ++" + i + ") { " + stmts(d - 1, 2) + (ctl[0] ? "if (" + i + " == 0) { " + ctl + " } " : std::string()) + stmts(d - 1, 1) + "}";
       }
       case 6: {
+        // non-optimised for loop: callbacks in the initialiser, the condition and the increment
         const std::string i = name("j");
-        return "for (var " + i + " = " + cb() + " - " + std::to_string(next_site - 1) + "; " + i + " < 2; ++" + i + ") { " + stmts(d - 1, 2) + "}";
+        const std::string init = cb() + " - " + std::to_string(next_site - 1);
+        const std::string cond = rng.chance(600) ? "(" + cb() + " > 0 && " + i + " < 2)" : i + " < 2";
+        const std::string inc = rng.chance(400) ? i + " += " + cb() + " / " + std::to_string(next_site - 1) : "++" + i;
+        return "for (var " + i + " = " + init + "; " + cond + "; " + inc + ") { " + stmts(d - 1, 2) + "}";
       }
       case 7: {
         const std::string w = name("w");
         if (top && decl_sink) {
           decl_sink->push_back(w);
         }
-        return "var " + w + " = 0; while (" + w + " < 2) { ++" + w + "; " + stmts(d - 1, 2) + (rng.chance(300) ? "if (" + w + " == 1) { continue }; " : "") + "}";
+        const std::string cond = rng.chance(600) ? "(" + cb() + " > 0 && " + w + " < 2)" : w + " < 2";
+        return "var " + w + " = 0; while (" + cond + ") { ++" + w + "; " + stmts(d - 1, 2) + (rng.chance(300) ? "if (" + w + " == 1) { continue }; " : "") + "}";
       }
       case 8:
         return "for (" + name("x") + " : [1, 2]) { " + stmts(d - 1, 2) + "}";
@@ -177,10 +182,29 @@ namespace {
         return "for_each([1, 2], fun(x) { " + stmts(d - 1, 2) + "});";
       case 12:
         return "rec(" + std::to_string(rng.range(0, 3)) + ");";
+      case 14:
+        return ifdecl(d);
+      case 15:
+        return "{ " + stmts(d - 1, 3) + "}"; // a block with no declaration of its own
       default:
         return "return_early(" + cb() + ");";
       }
     }
+
+    // declaration inside an if condition / if initialiser, in a block that declares nothing else
+    std::string ifdecl(int d) {
+      {
+        const std::string x = name("c");
+        const std::string head = rng.chance(500) ? "if (var " + x + " = " + cb() + " > 0) " : "if (var " + x + " = " + cb() + "; " + x + " > 0) ";
+        const std::string inner = head + "{ " + stmts(d - 1, 2) + "} ";
+        switch (rng.below(3)) {
+        case 0: return "{ " + inner + "}";
+        case 1: return "for (var " + name("i") + " = 0; " + "true; ) { " + inner + "break; }";
+        default: return "for (" + name("x") + " : [1, 2]) { " + inner + "}";
+        }
+      }
+    }
+
   };
 
   J gen_program(Rng &rng, bool thorough) {
@@ -212,6 +236,8 @@ namespace {
         g.decl_sink = &helpers;
         s = g.stmt(depth, true) + " ";
         g.decl_sink = nullptr;
+      } else if (rng.chance(200)) {
+        s = g.ifdecl(depth) + " "; // directly at top level: a leaked declaration shows up in get_locals()
       }
       s += "var v" + std::to_string(i) + " = " + g.expr(depth) + "; mark(" + std::to_string(i) + ");";
       J st = J::object();
